@@ -556,7 +556,7 @@ def execute(prop, plan, tier, seed, expinfo, t_start, exp=None):
                 same = {}
                 for d in dres:
                     if d.get('indistinguishable'):
-                        same[d['tag'].rsplit('/', 1)[0]] = d
+                        same[d.get('fn') or d['tag'].rsplit('/', 1)[0]] = d
                 if same:
                     keep = []
                     for v in reported:
